@@ -13,7 +13,9 @@ SumAB(rs, a, b) == SumTo(LAMBDA i : rs[i].t[a] * rs[i].t[b], Len(rs))
 \* ---- P -------------------------------------------------------------------------------------------
 MeanVec(rs, S) == [a \in 1..S |-> Rat(SumA(rs, a), Len(rs))]                      \* needs Len(rs) >= 1
 \* unbiased covariance: sum (x-m)(y-m) / (n-1) = (n sum xy - sum x sum y) / (n (n-1));   needs n >= 2
-CovU(rs, S) == LET n == Len(rs) IN [a \in 1..S |-> [b \in 1..S |-> Rat(n * SumAB(rs, a, b) - SumA(rs, a) * SumA(rs, b), n * (n - 1))]]
+CovU(rs, S) == LET n == Len(rs) IN [a \in 1..S |-> [b \in 1..S |-> IF n < 2 THEN RZero ELSE Rat(n * SumAB(rs, a, b) - SumA(rs, a) * SumA(rs, b), n * (n - 1))]]
+\* (a declared class with fewer than two building traces has no covariance estimate: it contributes the zero matrix, and the average
+\* is still taken over ALL declared classes - the reading of "average over declared classes" the library documents by its warning)
 Templates(rows, classes, S) == [k \in 1..Len(classes) |-> LET rs == ClassRows(rows, classes[k]) IN
                                   IF Len(rs) = 0 THEN [a \in 1..S |-> RZero] ELSE MeanVec(rs, S)]
 Pooled(rows, classes, S) == [a \in 1..S |-> [b \in 1..S |->
@@ -51,6 +53,7 @@ TemplateK(rows, classes, S, variant) == [k \in 1..Len(classes) |-> LET rs == Cla
     IN [a \in 1..S |-> Rat(SumA(rs, a), div)]]
 PooledK(rows, classes, S) == [a \in 1..S |-> [b \in 1..S |->
      RDiv(RSumTo(LAMBDA k : LET rs == ClassRows(rows, classes[k])  n == Len(rs) IN
-                            RDiv(RSub(RInt(SumAB(rs, a, b)), RMul(RMul(Rat(SumA(rs, a), n), Rat(SumA(rs, b), n)), RInt(n))), RInt(n - 1)),
+                            IF n = 0 THEN RZero ELSE
+                            RDiv(RSub(RInt(SumAB(rs, a, b)), RMul(RMul(Rat(SumA(rs, a), n), Rat(SumA(rs, b), n)), RInt(n))), RInt((IF n < 2 THEN 2 ELSE n) - 1)),
                  Len(classes)), RInt(Len(classes)))]]
 =============================================================================
